@@ -32,25 +32,28 @@ LOOM_NAMES = ["node1", "node10", "node2", "node2.cluster", "a", "B", "b", "zz.0"
 
 
 def gen_world(r, res=None, small=False):
-    nl = r.choice([1, 1, 2, 2, 3]) if not small else 1
+    # one world in ten is past the single-digit sizes (ranks, CPUs, threads >= 10; sparse large ids)
+    wide = (not small) and r.random() < 0.1
+    nl = (r.choice([1, 1, 2, 2, 3]) if not wide else r.choice([4, 5])) if not small else 1
     names = r.sample(LOOM_NAMES, nl)
     rank_mode = r.choice(["none", "none", "all", "all", "some-looms", "ties"])
     if nl == 1 and rank_mode == "some-looms":
         rank_mode = "all"
     looms = []
-    pid_pool = r.sample(range(1, 60), 12)
-    tid_pool = r.sample(range(1, 400), 60)
+    pid_pool = r.sample(range(1, 60), 12) if not wide else r.sample([7, 9, 10, 11, 99, 100, 101, 1000, 9999, 10000, 65536, 10**6,
+                                                                       2**31 - 1000, 12, 13, 14, 15, 16, 17, 18, 19, 20, 21, 22], 24)
+    tid_pool = r.sample(range(1, 400), 60) if not wide else (r.sample(range(1, 4000), 300) + [65535, 65536, 2**31 - 1, 10**9])
     nprocs_total = 0
     for li, name in enumerate(names):
-        ncpu = r.choice([1, 2, 2, 3, 4])
-        phy = r.sample(range(0, 12), ncpu)
+        ncpu = r.choice([1, 2, 2, 3, 4]) if not wide else r.choice([2, 9, 10, 12])
+        phy = r.sample(range(0, 12), ncpu) if not wide else r.sample(range(0, 300), ncpu)
         if r.random() < 0.4:
             phy = list(range(ncpu))
         cpus = [(i, phy[i]) for i in range(ncpu)]
         procs = []
-        for pi in range(r.choice([1, 1, 2, 3])):
+        for pi in range(r.choice([1, 1, 2, 3]) if not wide else r.choice([2, 3, 4])):
             pid = pid_pool.pop() if r.random() < 0.85 or not procs else procs[-1]["pid"] + 100
-            nth = r.choice([1, 2, 2, 3])
+            nth = r.choice([1, 2, 2, 3]) if not wide else r.choice([1, 2, 9, 11])
             tids = [tid_pool.pop() for _ in range(nth)]
             procs.append({"pid": pid, "appid": r.choice([1, 1, 2, 3, 7]), "rank": None, "nranks": None, "tids": tids})
             nprocs_total += 1
@@ -73,6 +76,8 @@ def gen_world(r, res=None, small=False):
                 p["nranks"] = nprocs_total + 3
     if res is not None:
         res.dist("world:looms=%d" % nl)
+        if wide:
+            res.dist("world:wide")
         res.dist("world:ranks=" + rank_mode)
     return {"looms": looms, "ties": rank_mode == "ties"}
 
